@@ -389,19 +389,24 @@ inductive Reported where
   | list (xs : List V)
   deriving Repr, DecidableEq
 
-/-- `sym_init_args`: the schema's fields in order (positional, *args, keyword-only), defaults
-applied, then the extra keys in insertion order. -/
-def reportArgs (s : Sig) (fields : KW) (va : Option (List V)) : List (Name × Reported) :=
-  let one (p : Param) : Name × Reported :=
-    (p.name, match (kget fields p.name).orElse (fun _ => p.dflt) with
-             | some v => .value v
-             | none => .missing)
-  s.pos.map one
+/-- The shape of `sym_init_args`: the schema's fields in order (positional, *args, keyword-only)
+with defaults applied, then the extra keys in insertion order. -/
+def reportOne (get : Name → Option V) (p : Param) : Name × Reported :=
+  (p.name, match (get p.name).orElse (fun _ => p.dflt) with
+           | some v => .value v
+           | none => .missing)
+
+def reportWith (s : Sig) (get : Name → Option V) (va : List V) (extra : KW) : List (Name × Reported) :=
+  s.pos.map (reportOne get)
   ++ (match s.varargs with
-      | some vn => [(vn, .list (va.getD []))]
+      | some vn => [(vn, .list va)]
       | none => [])
-  ++ s.kwonly.map one
-  ++ (fields.filter fun p => !(s.names.contains p.1)).map fun p => (p.1, .value p.2)
+  ++ s.kwonly.map (reportOne get)
+  ++ extra.map fun p => (p.1, .value p.2)
+
+/-- `sym_init_args` as computed from the symbolic attributes. -/
+def reportArgs (s : Sig) (fields : KW) (va : Option (List V)) : List (Name × Reported) :=
+  reportWith s (kget fields) (va.getD []) (fields.filter fun p => !(s.names.contains p.1))
 
 def symInitArgs (F : Functor) : List (Name × Reported) := reportArgs F.sig F.bound F.va
 
